@@ -115,15 +115,22 @@ func flowList(n uint64) []*flow.Rule {
 	mk := func(id string, t float64) *flow.Rule {
 		return &flow.Rule{ID: id, Resource: rFlow, TokenCalculateStrategy: flow.Direct, ControlBehavior: flow.Reject, Threshold: t}
 	}
+	// a never-blocking rule limited by the traffic of ANOTHER resource (the free one) with a statistic of its own:
+	// its window is fed, through the manager's reference index, by requests on that other resource while this
+	// resource's list is being switched
+	assoc := func(id string) *flow.Rule {
+		return &flow.Rule{ID: id, Resource: rFlow, TokenCalculateStrategy: flow.Direct, ControlBehavior: flow.Reject, Threshold: 1e9,
+			RelationStrategy: flow.AssociatedResource, RefResource: rFree, StatIntervalInMs: 20000}
+	}
 	switch n % 4 {
 	case 0:
 		return []*flow.Rule{mk("pass0", 1e9), mk("block0", 0)}
 	case 1:
 		return []*flow.Rule{mk("block1", 0), mk("pass1", 1e9)}
 	case 2:
-		return []*flow.Rule{mk("block2", 0), mk("pass2", 5e8), mk("pass2b", 1e9)}
+		return []*flow.Rule{mk("block2", 0), mk("pass2", 5e8), assoc("pass2b")}
 	}
-	return []*flow.Rule{mk("pass3", 5e8), mk("pass3b", 1e9), mk("block3", 0)}
+	return []*flow.Rule{mk("pass3", 5e8), assoc("pass3b"), mk("block3", 0)}
 }
 
 func isoList(n uint64) []*isolation.Rule {
